@@ -145,3 +145,7 @@ def header_block_ok(frames, start, first_cls, sid, max_size):
 def max_concurrent(settings):
     return (setting_current(settings, S_MAX_CONCURRENT_STREAMS)
             if setting_has(settings, S_MAX_CONCURRENT_STREAMS) else 4294967297)
+
+
+def SETTINGS_OK_WEAK(s):
+    return all(len(s._settings[k]) >= 1 for k in s._settings)
